@@ -59,6 +59,14 @@
 
 #define MAX_NLINES	(16384)
 #define MAX_LLEN	(1024)
+#if defined DATEUTILS_VERIF && defined VERIF_MAX_NLINES
+/* verification hook: shrink the reader's window so that its edges can be
+ * reached with small inputs */
+# undef MAX_NLINES
+# define MAX_NLINES	VERIF_MAX_NLINES
+# undef MAX_LLEN
+# define MAX_LLEN	VERIF_MAX_LLEN
+#endif	/* DATEUTILS_VERIF && VERIF_MAX_NLINES */
 
 #if !defined MAP_ANONYMOUS && defined MAP_ANON
 # define MAP_ANONYMOUS	(MAP_ANON)
@@ -143,6 +151,11 @@ prchunk_fill(prch_ctx_t ctx)
  * lines read so far and a reader yielding a buffer fill and the number of
  * bytes read */
 #define CHUNK_SIZE	(4096)
+#if defined DATEUTILS_VERIF && defined VERIF_CHUNK_SIZE
+/* verification hook: size of one read() */
+# undef CHUNK_SIZE
+# define CHUNK_SIZE	VERIF_CHUNK_SIZE
+#endif	/* DATEUTILS_VERIF && VERIF_CHUNK_SIZE */
 #define YIELD(x)	goto yield##x
 	char *off = ctx->buf + 0;
 	char *bno = ctx->buf + ctx->bno;
